@@ -21,30 +21,9 @@ example : noNulEnd (packInfoRaw [(['a','\t','b'], ['1','\t']), (['a',' ','b'], [
 row that is NaN in x, y *and* weight; built-in weighting ⇒ no stored weights, custom ⇒ one weight
 per point) and every padding size ≥ the number of points.  Covers 0 points, partially-NaN rows,
 custom weights (NaN weights included) and all seven built-in weightings. -/
-theorem cal_roundtrip (c : Cal) (size : Nat) (hok : c.ok = true) (_hsize : c.points.length ≤ size) :
-    Cal.fromArray (c.toArray size) = c := by
-  simp only [Cal.ok, Bool.and_eq_true, decide_eq_true_eq, Bool.not_eq_true'] at hok
-  obtain ⟨⟨⟨⟨⟨⟨⟨hul, hun⟩, hwl⟩, hwn⟩, hrsq⟩, herr⟩, hrows⟩, hw⟩ := hok
-  have hlen : c.effWeights.length = c.points.length := by
-    unfold Cal.effWeights
-    split
-    · split <;> simp [derivedWeights_length]
-    · rename_i hk
-      simpa [hk] using hw
-  have hrows' := filter_padded c.effWeights c.points (size - c.effWeights.length) (size - c.points.length) hlen hrows
-  unfold Cal.fromArray Cal.toArray
-  simp only [hrows', npStr_id 32 c.unit hul hun, npStr_id 32 c.weighting hwl hwn,
-    optOfNaN_getD _ hrsq, optOfNaN_getD _ herr]
-  rw [List.map_snd_zip (by omega), List.map_fst_zip (by omega)]
-  cases c with
-  | mk i g u r e p wn ws =>
-    simp only [Cal.mk.injEq, true_and]
-    split
-    · rename_i hk
-      simp only [hk, if_true, beq_iff_eq] at hw
-      exact hw.symm
-    · rename_i hk
-      simp [Cal.effWeights, hk]
+theorem cal_roundtrip (c : Cal) (size : Nat) (hok : c.ok = true) (hsize : c.points.length ≤ size) :
+    Cal.fromArray (c.toArray size) = c :=
+  cal_roundtrip_aux c size hok hsize
 
 /-- a 3-point `1/x` calibration with a half-NaN row -/
 def exCalX : Cal :=
@@ -140,6 +119,185 @@ theorem load_save (fl : Rat → Rat) (hfl : ∀ x, |fl x - x| ≤ |x| / 2 ^ 53) 
     if_true, if_neg h1.symm, if_neg h1, hr7, hr8, if_neg hr7', if_neg hr8', hcalrt,
     config_roundtrip fl hfl L.config hcfg, hkindeq, hcons, hmk, unpack_pack_info L.info hinfo]
   rfl
+
+/-- non-vacuity of `load_save`: a 2-element raster laser (a 3-point `1/x` calibration with a
+half-NaN row, a custom-weight calibration of another length, info with colliding keys and a
+`File Path`), and a 2-layer SRR laser with SRRConfig((0,2),(1,3)) -/
+def exLaser : Laser :=
+  { kind := .laser, fields := [(['A'], ['<','f','8']), (['B','\t','b'], ['<','f','4'])],
+    layers := [⟨[1, 2], [[1, 2], [3, 4]]⟩],
+    cal := [(['A'], exCalX), (['B','\t','b'], exCalCustom)],
+    config := .raster (Flt.num 1) (Flt.num 2) (Flt.num 3),
+    info := [(['a','\t','b'], ['1']), (['a',' ','b'], ['2','\t']), (kFilePath, ['x'])] }
+
+def exSRRLaser : Laser :=
+  { kind := .srr, fields := [(['A'], ['<','f','8'])],
+    layers := [⟨[1, 2], [[1], [2]]⟩, ⟨[1, 2], [[3], [4]]⟩],
+    cal := [(['A'], Cal.default)], config := .srr exSRR, info := [] }
+
+example : exLaser.ok = true ∧ exSRRLaser.ok = true := by decide +kernel
+
+/-! ## historical layouts -/
+
+/-- a 0.7-generation file of `L` (`_version`, `_class`, packed info, one `calibration_<element>`
+member per element, each with its own length) loads to `normalise L` with that file version -/
+theorem load_saveV07 (fl : Rat → Rat) (hfl : ∀ x, |fl x - x| ≤ |x| / 2 ^ 53) (p : PathInfo) (ver : Str)
+    (L : Laser) (hL : L.ok = true) (hv : version07Ok ver = true) :
+    (saveV07 fl ver L >>= load fl p) = .ok (normalise p ver L) := by
+  simp only [Laser.ok, Bool.and_eq_true, decide_eq_true_eq, beq_iff_eq, List.all_eq_true] at hL
+  obtain ⟨⟨⟨⟨⟨⟨⟨hnul, hnodup⟩, hkeys⟩, hcal⟩, hkind⟩, hcfg⟩, hlayers⟩, hinfo⟩ := hL
+  simp only [version07Ok, Bool.and_eq_true] at hv
+  obtain ⟨⟨⟨hvn, h6⟩, h7⟩, h8⟩ := hv
+  obtain ⟨r6, hr6, hr6'⟩ := cmpGe_cases _ _ h6
+  obtain ⟨r7, hr7, hr7'⟩ := cmpGe_cases _ _ h7
+  have hr8 := cmpLt_cases _ _ h8
+  obtain ⟨d, hd, hdf, hcons⟩ := data_roundtrip L hlayers
+  have hkindeq : (if L.config.isSRR then Kind.srr else Kind.laser) = L.kind := by
+    cases hk : L.kind <;> cases hc : L.config.isSRR <;> simp_all
+  have hmk : ∀ info, mkLaser L.kind L.fields L.layers L.cal L.config info = { L with info := info } := by
+    intro info
+    unfold mkLaser
+    have : dictUpdate (L.fields.map fun f => (f.1, Cal.default)) L.cal = L.cal := by
+      apply dictUpdate_same_keys
+      · rw [hkeys]; simp [keys, List.map_map, Function.comp_def]
+      · rw [hkeys]; exact hnodup
+    rw [this]
+  have hfold := foldlM_calibrationOf L.cal (by rw [hkeys]; exact hnodup) hcal [] L.cal L.fields rfl hkeys.symm
+  simp only [saveV07, hd, bind, Except.bind, pure, Except.pure]
+  simp only [load, loadHeader, loadInfo, loadCal, stripNul_of_noNulEnd ver hvn, getOr, bind, Except.bind, pure,
+    Except.pure, hr6, hr7, hr8, if_neg hr6', if_neg hr7', if_true, hdf]
+  simp only [getOr, bind, Except.bind, pure, Except.pure] at hfold
+  simp only [hfold, config_roundtrip fl hfl L.config hcfg, hkindeq, hcons, hmk, unpack_pack_info L.info hinfo]
+  rfl
+
+/-- a 0.6-generation file of `L` (only a `name` member instead of the info) loads to `L` with the
+info reduced to its name -/
+theorem load_saveV06 (fl : Rat → Rat) (hfl : ∀ x, |fl x - x| ≤ |x| / 2 ^ 53) (p : PathInfo) (ver : Str)
+    (L : Laser) (hL : L.ok = true) (hv : version06Ok ver = true)
+    (hname : noNulEnd ((dictGet L.info kName).getD []) = true) :
+    (saveV06 fl ver L >>= load fl p) = .ok (normaliseV06 p ver L) := by
+  simp only [Laser.ok, Bool.and_eq_true, decide_eq_true_eq, beq_iff_eq, List.all_eq_true] at hL
+  obtain ⟨⟨⟨⟨⟨⟨⟨hnul, hnodup⟩, hkeys⟩, hcal⟩, hkind⟩, hcfg⟩, hlayers⟩, hinfo⟩ := hL
+  simp only [version06Ok, Bool.and_eq_true] at hv
+  obtain ⟨⟨⟨hvn, h6⟩, h7⟩, h8⟩ := hv
+  obtain ⟨r6, hr6, hr6'⟩ := cmpGe_cases _ _ h6
+  have hr7 := cmpLt_cases _ _ h7
+  have hr8 := cmpLt_cases _ _ h8
+  obtain ⟨d, hd, hdf, hcons⟩ := data_roundtrip L hlayers
+  have hkindeq : (if L.config.isSRR then Kind.srr else Kind.laser) = L.kind := by
+    cases hk : L.kind <;> cases hc : L.config.isSRR <;> simp_all
+  have hmk : ∀ info, mkLaser L.kind L.fields L.layers L.cal L.config info = { L with info := info } := by
+    intro info
+    unfold mkLaser
+    have : dictUpdate (L.fields.map fun f => (f.1, Cal.default)) L.cal = L.cal := by
+      apply dictUpdate_same_keys
+      · rw [hkeys]; simp [keys, List.map_map, Function.comp_def]
+      · rw [hkeys]; exact hnodup
+    rw [this]
+  have hfold := foldlM_calibrationOf L.cal (by rw [hkeys]; exact hnodup) hcal [] L.cal L.fields rfl hkeys.symm
+  simp only [saveV06, hd, bind, Except.bind, pure, Except.pure]
+  simp only [load, loadHeader, loadInfo, loadCal, stripNul_of_noNulEnd ver hvn, stripNul_of_noNulEnd _ hname,
+    getOr, bind, Except.bind, pure, Except.pure, hr6, hr7, hr8, if_neg hr6', if_true, hdf]
+  simp only [getOr, bind, Except.bind, pure, Except.pure] at hfold
+  simp only [hfold, config_roundtrip fl hfl L.config hcfg, hkindeq, hcons, hmk]
+  rfl
+
+/-- **The three layouts agree.**  Files describing `L` in the 0.6, 0.7 and 0.8+ layouts all load,
+and to the same laser: identical kind, fields, data layers, calibrations and configuration; the
+0.7 and 0.8+ infos are both `infoSpec L.info` finished with their own file version, the 0.6 info
+is the name finished the same way. -/
+theorem layouts_agree (fl : Rat → Rat) (hfl : ∀ x, |fl x - x| ≤ |x| / 2 ^ 53) (p : PathInfo)
+    (ver time v07 v06 : Str) (L : Laser) (hL : L.ok = true) (hv : versionOk ver = true) (ht : noNulEnd time = true)
+    (h7 : version07Ok v07 = true) (h6 : version06Ok v06 = true)
+    (hname : noNulEnd ((dictGet L.info kName).getD []) = true) :
+    ∃ A B C, (saveV06 fl v06 L >>= load fl p) = .ok A ∧ (saveV07 fl v07 L >>= load fl p) = .ok B ∧
+      (save fl ver time L >>= load fl p) = .ok C ∧
+      (A.kind = L.kind ∧ A.fields = L.fields ∧ A.layers = L.layers ∧ A.cal = L.cal ∧ A.config = L.config) ∧
+      (B.kind = L.kind ∧ B.fields = L.fields ∧ B.layers = L.layers ∧ B.cal = L.cal ∧ B.config = L.config) ∧
+      (C.kind = L.kind ∧ C.fields = L.fields ∧ C.layers = L.layers ∧ C.cal = L.cal ∧ C.config = L.config) ∧
+      A.info = finishInfo p v06 [(kName, (dictGet L.info kName).getD [])] ∧
+      B.info = finishInfo p v07 (infoSpec L.info) ∧ C.info = finishInfo p ver (infoSpec L.info) :=
+  ⟨_, _, _, load_saveV06 fl hfl p v06 L hL h6 hname, load_saveV07 fl hfl p v07 L hL h7,
+    load_save fl hfl p ver time L hL hv ht,
+    ⟨rfl, rfl, rfl, rfl, rfl⟩, ⟨rfl, rfl, rfl, rfl, rfl⟩, ⟨rfl, rfl, rfl, rfl, rfl⟩, rfl, rfl, rfl⟩
+
+/-- files older than 0.6.0 are rejected with `ValueError` whatever else they contain -/
+theorem load_rejects_old (fl : Rat → Rat) (p : PathInfo) (f : NpzFile) (v : Str) (hh : f.header = none)
+    (hv : f.version = some v) (hlt : cmpLt v v060 = true) : load fl p f = .error .valueError := by
+  have := cmpLt_cases _ _ hlt
+  simp [load, loadHeader, hh, hv, this, bind, Except.bind, throw, throwThe, MonadExceptOf.throw]
+
+example : version06Ok ['0','.','6','.','1','2'] = true ∧ version06Ok ['0','.','6'] = true
+    ∧ version07Ok ['0','.','7','.','0'] = true ∧ version07Ok ['0','.','7','.','1','0'] = true
+    ∧ version07Ok ['0','.','1','0','.','2'] = false ∧ version06Ok ['0','.','5','.','9'] = false := by decide
+
+/-! ## versions -/
+
+/-- `compare_version` compares the numeric components pairwise, first difference decides, and a
+common prefix compares equal: for all version strings whose components are decimal numbers -/
+theorem compareVersion_spec (va vb : Str) (as bs : List Nat)
+    (ha : (splitOn '.' va).mapM parseNat = .ok as) (hb : (splitOn '.' vb).mapM parseNat = .ok bs) :
+    compareVersion va vb = .ok (lexZip as bs) := by
+  unfold compareVersion
+  generalize splitOn '.' va = xs at ha
+  generalize splitOn '.' vb = ys at hb
+  induction xs generalizing ys as bs with
+  | nil =>
+    simp only [List.mapM_nil, pure, Except.pure, Except.ok.injEq] at ha
+    subst ha
+    simp [cmpComponents, lexZip]; rfl
+  | cons x xs ih =>
+    cases ys with
+    | nil =>
+      simp only [List.mapM_nil, pure, Except.pure, Except.ok.injEq] at hb
+      subst hb
+      cases as <;> simp [cmpComponents, lexZip] <;> rfl
+    | cons y ys =>
+      rw [List.mapM_cons] at ha hb
+      cases hx : parseNat x with
+      | error e => simp [hx, bind, Except.bind] at ha
+      | ok a =>
+        cases hy : parseNat y with
+        | error e => simp [hy, bind, Except.bind] at hb
+        | ok b =>
+          cases hxs : xs.mapM parseNat with
+          | error e => simp [hx, hxs, bind, Except.bind] at ha
+          | ok as' =>
+            cases hys : ys.mapM parseNat with
+            | error e => simp [hy, hys, bind, Except.bind] at hb
+            | ok bs' =>
+              simp only [hx, hxs, bind, Except.bind, pure, Except.pure, Except.ok.injEq] at ha
+              simp only [hy, hys, bind, Except.bind, pure, Except.pure, Except.ok.injEq] at hb
+              subst ha; subst hb
+              simp only [cmpComponents, hx, hy, bind, Except.bind, lexZip]
+              split
+              · rfl
+              · split
+                · rfl
+                · exact ih (ys := ys) (as := as') (bs := bs') hxs hys
+
+/-- the comparison is antisymmetric -/
+theorem lexZip_antisymm (as bs : List Nat) : lexZip bs as = - lexZip as bs := by
+  induction as generalizing bs with
+  | nil => cases bs <;> simp [lexZip]
+  | cons a as ih =>
+    cases bs with
+    | nil => simp [lexZip]
+    | cons b bs =>
+      simp only [lexZip]
+      by_cases h1 : a > b
+      · have : ¬ b > a := by omega
+        simp [h1, this]
+      · by_cases h2 : a < b
+        · simp [h1, h2]
+        · have h3 : ¬ b > a := by omega
+          have h4 : ¬ b < a := by omega
+          simp [h1, h2, ih]
+
+/-- "0.10.2" is newer than "0.8.0" (numeric, not lexicographic on characters); "0.6" and "0.6.0"
+compare equal; "0.5.12" is older than "0.6.0" -/
+example : compareVersion ['0','.','1','0','.','2'] v080 = .ok 1 ∧ compareVersion ['0','.','6'] v060 = .ok 0
+    ∧ compareVersion ['0','.','5','.','1','2'] v060 = .ok (-1) := by decide
 
 /-! ## fixpoint -/
 
